@@ -62,6 +62,16 @@ CHECKS = {
             "Breadth-first search over histories of {SET_FEATURES with/without PROTOCOL_FEATURES, SET_VRING_KICK new/no descriptor, SET_VRING_CALL, SET_VRING_ENABLE 0/1, GET_VRING_BASE, RESET_DEVICE, guest kick on the current descriptor} on two rings of a real daemon (RwLock and Mutex rings, one and two workers), every message acknowledged and a two-round probe listener on each worker as ordering barrier, so 'not dispatched' is observed without sleeping. After every step the dispatch count per ring must equal the reference model's (a pending kick is dispatched iff the ring is started and enabled now; kicks raised while inactive stay in the eventfd and are dispatched by the activating step), GET_VRING_BASE returns the index and drops both descriptors, and each worker's epoll set (read from /proc fdinfo) holds exactly the kick descriptors of active rings. The key includes the implementation's ring flags and epoll registrations; closure is reached at 296 states (depth 9).",
             "Trusted: /proc/self/fdinfo for the epoll set; the two-probe barrier argument (DESIGN 2.1). Steps the protocol forbids in the current state are not in the alphabet for that state. Random histories beyond the closure are not claimed.",
             "DESIGN.md 4/C11"),
+    "C13": ("model_checking", "xstate",
+            "explicit-state BFS over memory-table histories on a real VhostUserDaemon with a reference region map co-executed, byte probes through file and guest memory and translation probes via SET_VRING_ADDR after every step",
+            "Breadth-first search over histories of {SET_MEM_TABLE of 1-3 regions in both orders, SET_MEM_TABLE with a failing backend callback, ADD_MEM_REG, REM_MEM_REG, REM_MEM_REG with a wrong size} over an 8-region alphabet (adjacent, overlapping, same start, non-zero mmap offsets, 1/2/3 pages, user ranges low / around 2^47 / ending at 2^64-0x1000, un-mmappable descriptor, misaligned offset) against a real daemon. After every step: notification count, the guest memory held by the backend vs the reference map (range, file identity, offset), a tag written through the file read back through guest memory and vice versa at the first and last byte of each region, and SET_VRING_ADDR probes at every region edge +-1 whose installed queue address must equal gpa_base + (va - user_base) or be rejected. Failed requests end the session, so the harness reconnects to the same daemon - which is also how 'a failed update leaves the table intact' is observed, and gives the differential between states reached with and without reconnect.",
+            "Trusted: which updates must succeed is demanded only for clearly valid tables; key = model map + last snapshot handed to the backend (no accessor to the translation table; probes cover it on every checked transition). Depth 3 quick / 5 thorough, closure not claimed.",
+            "DESIGN.md 4/C13"),
+    "C14": ("model_checking", "lattice",
+            "exhaustive sweeps (ring index 0..=255, sizes/bases/used-indexes up to 0..=65535, feature masks, channel flags) and all short histories over {table A/B, ring address, call fd1/fd2/none, add_used+signal} on a real daemon, queue state read inside the worker by a probe listener",
+            "Per-ring messages are sent for every ring index 0..=255 (rejected iff out of range); SET_VRING_NUM for 0..=300 and boundaries (all of 0..=65535 at thorough) with the queue size read back by a custom listener running inside the worker; SET_VRING_BASE/GET_VRING_BASE and the used index found in guest memory at SET_VRING_ADDR over 0..=260 and boundaries (0..=65535 at thorough); 343 address triples; SET_FEATURES for 7 offered masks x single bits / offered+-one bit / patterns on 1-3 queues (subset check, exact delivery to acked_features, EVENT_IDX to every queue and the backend); the backend-request channel under the 8 subsets of {REPLY_ACK, SHARED_OBJECT, SHMEM}; and every history of length <= 4 (5 thorough) over {memory table A, B, SET_VRING_ADDR, SET_VRING_CALL fd1/fd2/none, add_used+signal}, after which the used element must be in the latest table's file and only the latest call descriptor's counter may have moved.",
+            "Trusted: virtio-queue accessors as the view of the ring; eventfd counters from /proc fdinfo. Values between sweep points at quick tier.",
+            "DESIGN.md 4/C14"),
     "C17": ("model_checking", "lattice",
             "exhaustive enumeration of queues-per-thread configurations (all mask assignments for n<=4 queues on <=3 workers) x every queue kicked on a real daemon, plus custom listener ids over the 64-bit boundary set",
             "For every assignment of n = 1..=4 (5 at thorough) queues to 1..=3 worker masks drawn from all non-empty subsets of the n bits (and masks with bits beyond n) a real daemon is started, every ring is given a distinct size, started and enabled, every queue is kicked once and a barrier is placed on every worker: exactly one dispatch must be observed, on the first thread whose mask contains the queue, with event id = number of lower-numbered queues in that mask, and vrings[event id] must be the kicked ring (identified by its size); the exit event must be registered with id num_queues. Custom listener ids {0..5, 255, 256, 65534..65538, 2^32+k, 2^64-1} must be refused (reserved range, or not representable) or delivered with exactly the registered id while queues keep working.",
